@@ -166,6 +166,10 @@ static void dump(Slot &s, const std::string &what) {
     else if (what == "polyq") pi("polyq", g.getGlobalPolynomialSpace(false));
     else if (what == "hsupport") pd("hsupport", g.getHierarchicalSupport());
     else if (what == "hint") pd("hint", g.integrateHierarchicalFunctions());
+    else if (what == "tensors") { // white-box: tensor index sets of Global / Fourier grids
+        if (g.isGlobal()) { auto *gg = g.get<GridGlobal>(); pi("tensors", gg->tensors.indexes); pi("utensors", gg->updated_tensors.indexes); }
+        else if (g.isFourier()) { auto *gf = g.get<GridFourier>(); pi("tensors", gf->tensors.indexes); pi("utensors", gf->updated_tensors.indexes); }
+        else { pi("tensors", nullptr, 0); pi("utensors", nullptr, 0); } }
     else if (what == "bytes") { std::ostringstream os; g.write(os, true); std::string b = os.str(); uint64_t old = dig; dig = 0; dmix(b.data(), b.size()); printf("o bytes %zu %016llx\n", b.size(), (unsigned long long) dig); dig = old; }
     else throw std::runtime_error("driver: unknown dump " + what);
 }
@@ -290,6 +294,7 @@ static void run_line(const std::string &line) {
     else if (cmd == "diffall") { Slot &s = S(k.next()); int d = s.g.getNumDimensions(); std::vector<double> all;
         for (size_t i = 0; d && i + d <= s.probe.size(); i += d) { std::vector<double> x(s.probe.begin() + i, s.probe.begin() + i + d), j; s.g.differentiate(x, j); all.insert(all.end(), j.begin(), j.end()); }
         pd("diffall", all); }
+    else if (cmd == "numpoints") { TypeOneDRule r = RULES.at(k.next()); int ml = k.ni(); std::vector<int> np; for (int l = 0; l <= ml; l++) np.push_back(OneDimensionalMeta::getNumPoints(l, r)); pi("numpoints", np); }
     else if (cmd == "estaniso") { Slot &s = S(k.next()); TypeDepth ty = DEPTHS.at(k.next()); int out = k.ni(); pi("estaniso", s.g.estimateAnisotropicCoefficients(ty, out)); }
     else throw std::runtime_error("driver: unknown command " + cmd);
 }
